@@ -126,10 +126,22 @@ static void make(int kind, int state, obj_t *x)
         break;
     }
 }
+/* the partner object of a two-object call, in each of ITS states: 0 empty, 1 owning / weak to live memory / whole array, 2 co-owned / weak to dead memory / slice */
+static int g_ostate = 1;
 static void make_other(int kind, obj_t *o)
 {
+    static obj_t keep, keep2;
     if (kind < 0) return;
     init_obj(kind, o);
+    if (g_ostate == 0) return;
+    if (g_ostate == 2) {
+        switch (kind) {
+        case KS: init_obj(KS, &keep2); cstl_shared_ptr_alloc(&o->s, 8, NULL); cstl_shared_ptr_share(&o->s, &keep2.s); return;
+        case KW: init_obj(KS, &keep); cstl_shared_ptr_alloc(&keep.s, 8, NULL); cstl_weak_ptr_from(&o->w, &keep.s); cstl_shared_ptr_reset(&keep.s); return;
+        case KA: cstl_array_alloc(&o->a, 6, 4); cstl_array_slice(&o->a, 1, 4, &o->a); return;
+        default: break;        /* guarded and unique pointers have two states only */
+        }
+    }
     switch (kind) {
     case KG: cstl_guarded_ptr_set(&o->g, &ext_buf[0]); break;
     case KU: cstl_unique_ptr_alloc(&o->u, 8, NULL, NULL); break;
@@ -165,7 +177,8 @@ static void one_point(int e, int state, int ck, int partner_is_orig, int verbose
 {
     struct entry *t = &TABLE[e]; int ab; char rp[64];
     if (partner_is_orig && (t->ko != t->kx || ck == C_RELOCATE)) return;
-    snprintf(rp, sizeof rp, "%d:%d:%d:%d", e, state, ck, partner_is_orig);
+    if (g_ostate != 1 && (partner_is_orig || t->ko < 0 || (g_ostate == 2 && (t->ko == KG || t->ko == KU)))) return;
+    snprintf(rp, sizeof rp, "%d:%d:%d:%d:%d", e, state, ck, partner_is_orig, g_ostate);
     if (prog_buf) snprintf(prog_buf, 4000, "R %s\n", rp);
     /* (1) the stray copy */
     shim_reset(); shim_in_lib++;
@@ -176,7 +189,7 @@ static void one_point(int e, int state, int ck, int partner_is_orig, int verbose
     points++;
     if (verbose) printf("%s(%s = stray copy by %s of a %s %s pointer/object%s): %s\n", t->fn, t->pos, copyname[ck], statename[t->kx][state], kindname[t->kx], partner_is_orig ? ", the other argument is the original" : "", ab == 1 ? "abort()" : ab ? "assertion" : "returned");
     if (ab != 1) violation(rp, "%s with %s being a stray copy (%s) of a %s %s object%s %s instead of aborting", t->fn, t->pos, copyname[ck], statename[t->kx][state], kindname[t->kx], partner_is_orig ? " and the other argument being the original it was copied from" : "", ab ? "hit an assertion" : "returned");
-    if (partner_is_orig) return;
+    if (partner_is_orig || g_ostate != 1) return;      /* other partner states: only the stray call is judged (the original call may have documented reasons of its own to abort) */
     /* (2) the same call on the original, properly handled object must work (unless the call aborts for a documented reason of its own) */
     if (ck != C_RELOCATE) {
         shim_reset(); shim_in_lib++;
@@ -209,12 +222,12 @@ int main(int argc, char **argv)
     if (!prop || strcmp(prop, "C20")) { fprintf(stderr, "stray: property not served\n"); return 2; }
     if (replay) {
         int po = 0;
-        if (sscanf(replay, "%d:%d:%d:%d", &e, &st, &ck, &po) < 3 || e < 0 || e >= NENT) return 4;
+        if (sscanf(replay, "%d:%d:%d:%d:%d", &e, &st, &ck, &po, &g_ostate) < 3 || e < 0 || e >= NENT || g_ostate < 0 || g_ostate > 2) return 4;
         one_point(e, st, ck, po, 1);
         if (nviol) { printf("VIOLATED: %s\n", violmsg[0]); return 1; }
         printf("no violation\n"); return 0;
     }
-    for (e = 0; e < NENT && nviol < 6; e++) for (st = 0; st < nstates[TABLE[e].kx] && nviol < 6; st++) for (ck = 0; ck < NCOPY && nviol < 6; ck++) { one_point(e, st, ck, 0, 0); one_point(e, st, ck, 1, 0); }
+    for (e = 0; e < NENT && nviol < 6; e++) for (st = 0; st < nstates[TABLE[e].kx] && nviol < 6; st++) for (ck = 0; ck < NCOPY && nviol < 6; ck++) { g_ostate = 1; one_point(e, st, ck, 0, 0); one_point(e, st, ck, 1, 0); g_ostate = 0; one_point(e, st, ck, 0, 0); g_ostate = 2; one_point(e, st, ck, 0, 0); g_ostate = 1; }
     /* coverage cross-check against the declarations found by gcc -aux-info */
     for (i = 0; declared_fns[i]; i++) {
         int found = 0, k;
